@@ -185,6 +185,69 @@ func (fi *fnInfo) expandGuards(gs []guard) []guard {
 	return gs
 }
 
+// searchTest recognises a condition that asks whether a collection has an element satisfying a predicate:
+// slices.ContainsFunc(coll, pred) or slices.IndexFunc(coll, pred) compared with 0 / -1. found is the truth value of
+// (cond == pol) that means "an element satisfies pred".
+func searchTest(cond ssa.Value, pol bool) (coll ssa.Value, pred *ssa.Function, found bool, ok bool) {
+	cond, pol = normCond(cond, pol)
+	var call *ssa.Call
+	if bo, isB := cond.(*ssa.BinOp); isB {
+		cl, isCall := bo.X.(*ssa.Call)
+		n, isC := constInt(bo.Y)
+		if !isCall || !isC || !strings.HasPrefix(calleeName(cl.Common()), "slices.IndexFunc") {
+			return nil, nil, false, false
+		}
+		switch {
+		case (bo.Op == token.LSS && n == 0) || (bo.Op == token.EQL && n == -1) || (bo.Op == token.LEQ && n == -1):
+			found = !pol
+		case (bo.Op == token.GEQ && n == 0) || (bo.Op == token.NEQ && n == -1) || (bo.Op == token.GTR && n == -1):
+			found = pol
+		default:
+			return nil, nil, false, false
+		}
+		call = cl
+	} else if cl, isCall := cond.(*ssa.Call); isCall && strings.HasPrefix(calleeName(cl.Common()), "slices.ContainsFunc") {
+		call, found = cl, pol
+	}
+	if call == nil || len(call.Common().Args) != 2 {
+		return nil, nil, false, false
+	}
+	for _, o := range origins(call.Common().Args[1]) {
+		switch x := o.(type) {
+		case *ssa.Function:
+			pred = x
+		case *ssa.MakeClosure:
+			pred, _ = x.Fn.(*ssa.Function)
+		}
+	}
+	if pred == nil || len(pred.Blocks) == 0 {
+		return nil, nil, false, false
+	}
+	return call.Common().Args[0], pred, found, true
+}
+
+// trueGuardSets: for a predicate function, one guard set per way it can return true (the guards of the return plus,
+// for a non-constant result, the result itself being true, looked through && / || lowering).
+func (c *Ctx) trueGuardSets(pred *ssa.Function) [][]guard {
+	fi := c.info(pred)
+	var out [][]guard
+	for _, ret := range returnsOf(pred) {
+		if len(ret.Results) != 1 {
+			continue
+		}
+		if b, isC := constBool(ret.Results[0]); isC && !b {
+			continue
+		}
+		gs := append([]guard{}, fi.necessaryGuards(ret.Block())...)
+		if _, isC := ret.Results[0].(*ssa.Const); !isC {
+			cond, pol := normCond(ret.Results[0], true)
+			gs = append(gs, guard{edge{ret.Block(), 0}, cond, pol})
+		}
+		out = append(out, fi.expandGuards(gs))
+	}
+	return out
+}
+
 func (fi *fnInfo) rawGuardsOfEdge(e edge) []guard {
 	var out []guard
 	for _, blk := range fi.fn.Blocks {
@@ -705,7 +768,7 @@ func (c *Ctx) edgeEndsInError(e edge) (bool, string) {
 				bad = "function has no error result at " + c.ipos(last)
 				return
 			}
-			if mayBeNil(ps.resolve(ev), map[ssa.Value]bool{}) {
+			if ps.mayBeNil(ev) {
 				bad = "a nil error can be returned on the failure path at " + c.ipos(last)
 			}
 			return
@@ -721,7 +784,8 @@ func (c *Ctx) edgeEndsInError(e edge) (bool, string) {
 			dfs(s, next.enter(s, b))
 		}
 	}
-	ps := newPathState()
+	ps := newPathStateFor(e.from.Parent())
+	ps = ps.seedFromGuards(e.from)
 	// the edge itself fixes the outcome of its own condition
 	if _, _, next, feasible := ps.branch(e.from, e.idx); feasible {
 		ps = next
@@ -973,10 +1037,14 @@ func (p *pathState) enter(b, prev *ssa.BasicBlock) *pathState {
 		if !ok {
 			break
 		}
-		if !trackedPhi(phi) || j >= len(phi.Edges) {
+		if j >= len(phi.Edges) {
 			continue
 		}
-		if live != nil && live[phi] == nil {
+		if live != nil {
+			if live[phi] == nil {
+				continue // not relevant to any branch, return or registered use
+			}
+		} else if !trackedPhi(phi) {
 			continue
 		}
 		clone()
@@ -1092,6 +1160,11 @@ func (fi *fnInfo) controlPhis() map[*ssa.Phi]map[*ssa.BasicBlock]bool {
 				collect(x.X, at, depth+1)
 				collect(x.Y, at, depth+1)
 			}
+		}
+	}
+	for _, ev := range extraControlValues[fi.fn] {
+		if in, ok := ev.use.(ssa.Instruction); ok {
+			collectAny(ev.val, in.Block(), 0, uses)
 		}
 	}
 	for _, b := range fi.fn.Blocks {
@@ -1213,4 +1286,77 @@ func (fi *fnInfo) feasibleAvoiding(a *ssa.BasicBlock) map[*ssa.BasicBlock]bool {
 	r := fi.feasibleReach(nil, a)
 	fi.reachNoBlock[a] = r
 	return r
+}
+
+// seedFromGuards adds what the conditions that dominate block b say (nil-ness of tested values, outcomes of repeatable
+// conditions): a search that starts in the middle of a function still knows, e.g., that it is under `err != nil`.
+func (p *pathState) seedFromGuards(b *ssa.BasicBlock) *pathState {
+	fi := globalInfo(b.Parent())
+	out := &pathState{phi: p.phi, assume: map[string]bool{}, fi: p.fi}
+	for k, v := range p.assume {
+		out.assume[k] = v
+	}
+	for _, g := range fi.necessaryGuards(b) {
+		if x, nonNilWhenTrue, ok := errNilTest(g.cond); ok {
+			k := "nil:" + valKey(x)
+			if _, dup := out.assume[k]; !dup {
+				out.assume[k] = nonNilWhenTrue != g.pol
+			}
+			continue
+		}
+		if k, kpol := condKey(g.cond, g.pol); k != "" {
+			if _, dup := out.assume[k]; !dup {
+				out.assume[k] = kpol
+			}
+		}
+	}
+	return out
+}
+
+// mayBeNil: the (error) value can be nil on this path, taking phi bindings and recorded nil-facts into account.
+func (p *pathState) mayBeNil(v ssa.Value) bool {
+	rv := p.resolve(v)
+	if isNil, ok := p.assume["nil:"+valKey(rv)]; ok {
+		return isNil
+	}
+	if definitelyNonNil(rv) {
+		return false
+	}
+	return mayBeNil(rv, map[ssa.Value]bool{})
+}
+
+// extraControlValues lets a rule ask the path searches to track further phis: values whose identity along a path matters
+// to the rule (e.g. the digest handed to a cache update that is chosen by an if/else chain before a single update call).
+type controlUse struct {
+	val ssa.Value
+	use ssa.Instruction
+}
+
+var extraControlValues = map[*ssa.Function][]controlUse{}
+
+func registerControlValue(v ssa.Value, use ssa.Instruction) {
+	fn := use.Parent()
+	extraControlValues[fn] = append(extraControlValues[fn], controlUse{v, use})
+	if fi, ok := infoCache[fn]; ok {
+		fi.phiLive = nil
+		fi.reachNoEdge, fi.reachNoBlock, fi.reachAll = nil, nil, nil
+	}
+}
+
+func collectAny(v ssa.Value, at *ssa.BasicBlock, depth int, uses map[*ssa.Phi]map[*ssa.BasicBlock]bool) {
+	if depth > 6 || v == nil {
+		return
+	}
+	if x, ok := v.(*ssa.Phi); ok {
+		if uses[x] == nil {
+			uses[x] = map[*ssa.BasicBlock]bool{}
+		}
+		if uses[x][at] {
+			return
+		}
+		uses[x][at] = true
+		for _, e := range x.Edges {
+			collectAny(e, x.Block(), depth+1, uses)
+		}
+	}
 }
